@@ -61,3 +61,20 @@ class SortAsSubsets:
         fn = getattr(topological, self.fn_name)
         return CallSpec(fn, {"tuples": tuples, "allitems": items, "S": IdSet(S)}, args=(tuples, items), is_generator=self.is_gen,
                         universe=nodes, consts={"CircularDependencyError": sa_exc.CircularDependencyError})
+
+
+@harness("topological.sort", "same graphs as sort_as_subsets")
+class Sort(SortAsSubsets):
+    fn_name = "sort"
+    is_gen = True
+
+
+@harness("topological.find_cycles", "every edge set on <= 3 nodes (quick) / <= 4 (thorough), self loops included")
+class FindCycles(SortAsSubsets):
+    fn_name = "find_cycles"
+    is_gen = False
+
+    def enumerate(self, tier):
+        nmax = 3 if tier == "quick" else 4
+        for n, edges in graphs(nmax, tier):
+            yield {"n": n, "edges": edges, "items": list(range(n))}
